@@ -85,8 +85,10 @@ def r14_2(ctx, fx):
         local = [n for n, s in fn.aggregates(r"KBucketEntry$", "LocalNode")]
         ke = fn.calls(r"KBucket::entry$")
         idx = [c for c in fn.calls(r"Index(Mut)?(<.*>)?>?::index(_mut)?$") if re.search(r"\.buckets\b", fn.recv(c))]
-        ctx.anchor("R14.2", "RoutingTable::entry: LocalNode aggregate / KBucket::entry / buckets[..]", min(len(local), len(ke), len(idx)), 1, cfg=fx.cfg)
-        if bi and local and ke and idx:
+        # (`self.buckets` passed on as a slice is indexed by a place projection, not by a call of Index::index)
+        idx_ops = [c.args[1] for c in idx] + [{"c": [int(m_.group(1))]} for c in ke for m_ in [re.search(r"\.buckets\[_(\d+)\]", fn.recv(c))] if m_]
+        ctx.anchor("R14.2", "RoutingTable::entry: LocalNode aggregate / KBucket::entry / buckets[..]", min(len(local), len(ke), len(idx_ops)), 1, cfg=fx.cfg)
+        if bi and local and ke and idx_ops:
             b = bi[0]
             sws = [sw for sw in fn.discr_switches() if sw[1][0] in fn.copies_of(b.dest[0])]
             ctx.anchor("R14.2", "RoutingTable::entry: match on BucketIndex::new result", len(sws), 1, cfg=fx.cfg)
@@ -104,9 +106,9 @@ def r14_2(ctx, fx):
             ok = any(n.endswith("Key::distance") for n in names) and any(p[0] == 1 and "local_key" in p[1] for p in params) and any(p[0] == 2 for p in params)
             ctx.ob("R14.2", "RoutingTable::entry/index-from-distance(local_key,key)", ok, site=fn.site(b.node), cfg=fx.cfg,
                    detail="roots: %s" % sorted(guards.rootstrs(fn, b.args[0])))
-            ri = guards.rootstrs(fn, idx[0].args[1])
+            ri = guards.rootstrs(fn, idx_ops[0])
             ok = any("BucketIndex::get" in x for x in ri) and any("BucketIndex::new" in x for x in ri) and not any(x.startswith("const:") and not x.startswith("const:fn") for x in ri)
-            ctx.ob("R14.2", "RoutingTable::entry/bucket-index-is-BucketIndex::new-result", ok, site=fn.site(idx[0].node), cfg=fx.cfg, detail="roots: %s" % sorted(ri))
+            ctx.ob("R14.2", "RoutingTable::entry/bucket-index-is-BucketIndex::new-result", ok, site=fn.site(idx[0].node if idx else ke[0].node), cfg=fx.cfg, detail="roots: %s" % sorted(ri))
             rk = guards.rootstrs(fn, ke[0].args[1])
             ctx.ob("R14.2", "RoutingTable::entry/looked-up-key-is-the-argument", rk == {"param:_2"}, site=fn.site(ke[0].node), cfg=fx.cfg, detail="roots: %s" % sorted(rk))
     fn = ctx.fn(fx, RT + "RoutingTable::add_known_peer", "R14.2")
@@ -181,15 +183,21 @@ def element_tests(fx, fn):
             continue
         out.append({"kind": "conn", "idx": _idx_closure(fn, swidx), "edges": {(sw[0], l) for l in allowed}, "miss": set(), "site": sw[0], "conj": True})
     eq_edges = {}
-    for c in fn.calls(r"::eq$"):
+    ne_edges = {}
+    for c in fn.calls(r"::(eq|ne)$"):
         if len(c.args) != 2 or not c.dest:
             continue
         other = None
+        forbidden = None
         for a, b_ in ((c.args[0], c.args[1]), (c.args[1], c.args[0])):
             rs = fn.roots(a)
             sh = {x.lstrip("&") for x in fn.shape(a)}
-            if (rs and all(r[0] == "const" and re.search(r"ConnectionType::(NotConnected|CannotConnect)$", r[1]) for r in rs)) or (sh and sh <= set(ALLOWED_EVICT)):
+            if c.name.endswith("::eq") and ((rs and all(r[0] == "const" and re.search(r"ConnectionType::(NotConnected|CannotConnect)$", r[1]) for r in rs)) or (sh and sh <= set(ALLOWED_EVICT))):
                 other = b_
+            # `c != Connected && c != CanConnect`: the complement over the four-variant enum
+            for v in ("Connected", "CanConnect"):
+                if (rs and all(r[0] == "const" and re.search(r"ConnectionType::%s$" % v, r[1]) for r in rs)) or sh == {v}:
+                    other, forbidden = b_, v
         if other is None:
             continue
         from common import ref_local
@@ -205,11 +213,18 @@ def element_tests(fx, fn):
                         pr_, il_ = _index_local(fn, {"c": [q[0]]})
                         if pr_ is not None:
                             key_ = tuple(sorted(il_))
-                            eq_edges.setdefault(key_, set()).update((sw_, t_) for sw_, t_, f_2 in fn.bool_tests(c.dest[0]))
+                            if forbidden is None:
+                                eq_edges.setdefault(key_, set()).update((sw_, t_) for sw_, t_, f_2 in fn.bool_tests(c.dest[0]))
+                            else:
+                                is_ne = c.name.endswith("::ne")
+                                ne_edges.setdefault(key_, {}).setdefault(forbidden, set()).update((sw_, (t_ if is_ne else f_2)) for sw_, t_, f_2 in fn.bool_tests(c.dest[0]))
     for il_, edges in eq_edges.items():
         # `a == X || b == Y`: the element passes on either true edge; a node is "behind the test" when it is unreachable with all of
         # them cut (conj=False)
         out.append({"kind": "conn", "idx": _idx_closure(fn, set(il_)), "edges": edges, "miss": set(), "site": None, "conj": False})
+    for il_, per in ne_edges.items():
+        if set(per) == {"Connected", "CanConnect"} and all(per.values()):
+            out.append({"kind": "conn", "idx": _idx_closure(fn, set(il_)), "edges": set().union(*per.values()), "all_of": list(per.values()), "miss": set(), "site": None, "conj": False})
     # ---- iterator form
     for c in fn.calls(r"Iterator>?::position$"):
         if len(c.args) != 2 or len(c.dest) != 1:
@@ -272,6 +287,8 @@ def _behind(fn, node, t):
     """node is reachable only over an edge on which test t holds"""
     if not t["edges"]:
         return False
+    if t.get("all_of"):
+        return all(node not in fn.reach([fn.entry], cut=S) for S in t["all_of"])
     if t.get("conj"):
         sws = {sw for sw, l in t["edges"]}
         return len(sws) == 1 and fn.only_via(node, list(sws)[0], [l for sw, l in t["edges"]])
@@ -505,6 +522,15 @@ def r14_5(ctx, fx):
             is_q = lambda f, o: any(l.dest[0] in slice_locals(f, o) for l in f.calls(r"Vec(<.*>)?::len$"))
             is_b = lambda f, o: guards.rootstrs(f, o) == {"param:_3"}
             ok = bool(pushes) and all(guards.guarded(fn, c.node, is_q, is_b, "<")[0] for c in pushes)
+            if not ok and pushes:
+                # .. or tested after the push: `push; if result.len() == limit { return }` with `limit == 0` answered before the loop -
+                # a further push is reachable from a push only over the `len != limit` edge, the first one only over `limit != 0`
+                facts = guards.edge_facts(fn, is_q, is_b)
+                cont = {(sw, lab) for sw, lab, rel, cn in facts if rel in ("!=", "<")}
+                nz = {(sw, lab) for sw, lab, rel, cn in guards.edge_facts(fn, is_b, lambda f, o: "k" in o and f.const_value(o) == 0) if rel in ("!=", ">")}
+                again = any(c2.node in fn.reach([c.node], after=True, cut=cont) for c in pushes for c2 in pushes)
+                first = any(c.node in fn.reach([fn.entry], cut=nz) for c in pushes)
+                ok = bool(cont) and bool(nz) and not again and not first
         ctx.ob("R14.5", "RoutingTable::closest/take(limit)", ok, site=fn.site(fn.entry), cfg=fx.cfg,
                detail="take calls: %s" % [sorted(guards.rootstrs(fn, t.args[1])) for t in tk])
         ci = fn.calls(r"ClosestBucketsIter::new$")
